@@ -52,11 +52,34 @@ def tokdiff(a, b):
             out.append(op)
     return out
 
+def _contains(hay, needle):
+    n = len(needle)
+    return any(hay[k:k + n] == needle for k in range(len(hay) - n + 1))
+
 def insertions(b0, a):
-    """A must be B0 + insertions.  Returns ins: dict b0_index -> list of A tokens inserted before it."""
+    """A must be B0 + insertions.  Returns ins: dict b0_index -> list of A tokens inserted before it.
+    The alignment of B0 inside A is the one difflib finds (longest blocks first, earliest on ties).  It is ambiguous when an inserted run
+    repeats the real tokens next to it (e.g. a closure annotation `ensures r == i + 3 { i + 3 }`): the real tokens could then be taken
+    for annotation text and a change of the real code would go unseen.  Such a spot is refused here (MergeError), so that it is noticed
+    when the annotation is written; rephrase the annotation (`3 + i`)."""
     ins = {}
-    for tag, i1, i2, j1, j2 in tokdiff(b0, a):
+    ops = tokdiff(b0, a)
+    for n, (tag, i1, i2, j1, j2) in enumerate(ops):
         if tag == "equal":
+            # a real run of >= 3 tokens that ends/starts at an insertion must not occur again inside that insertion
+            for side in (-1, 1):
+                m = n + side
+                if 0 <= m < len(ops) and ops[m][0] == "insert":
+                    run = [t.text for t in a[ops[m][3]:ops[m][4]]]
+                    real = [t.text for t in b0[i1:i2]]
+                    edge = real[-4:] if side == 1 else real[:4]
+                    # only look at the part of the real run that shares a line with the insertion
+                    OPS = ("+", "-", "*", "/", "%", "<", "<=", ">", ">=", "==", "!=", "&&", "||", "<<", ">>", "&", "|", "^", "!")
+                    etoks = b0[i2 - len(edge):i2] if side == 1 else b0[i1:i1 + len(edge)]
+                    # (only expression-level repeats matter: a repeated operator or literal is where a change of the code would be lost)
+                    if len(edge) >= 3 and any(t.kind == "num" or t.text in OPS for t in etoks) and _contains(run, edge):
+                        raise MergeError("annotation ambiguous: the inserted text repeats the real tokens %r next to it (unit line %d); rephrase the annotation" % (
+                            " ".join(edge), a[ops[m][3]].line))
             continue
         if tag == "insert":
             ins.setdefault(i1, []).extend(a[j1:j2])
